@@ -620,11 +620,122 @@ pub fn draw(rng: &mut Rng, b: &[u8], others: &[Vec<u8>], enabled: u32) -> Option
     None
 }
 
+/// VALID modules that are large in ONE dimension `n` (kinds 10..): parsing must stay (near) linear in it.
+/// 10: n functions, each declaring 50 000 locals in one run (the validator's per-function maximum; 6 bytes
+///     per function); 11: n types + n tiny functions, one per type; 12: one function of n (`i32.const`, `drop`)
+///     pairs; 13: n globals; 14: n exports of one function; 15: one `br_table` with n targets;
+///     16: n active data segments; 17: one element segment of n function items; 18: n local-declaration runs of
+///     one local each, alternating types, in one function (n <= 50 000).
+pub fn scale_bomb(n: u32, kind: u8) -> Vec<u8> {
+    use wasm_encoder as we;
+    let mut m = we::Module::new();
+    let mut ts = we::TypeSection::new();
+    ts.function([], []);
+    if kind == 11 {
+        for i in 0..n {
+            // distinct signatures: i32 x (i % 7), i64 x (i / 7 % 5), and a result that cycles
+            let mut ps: Vec<we::ValType> = vec![we::ValType::I32; (i % 7) as usize];
+            ps.extend(std::iter::repeat(we::ValType::I64).take((i / 7 % 5) as usize));
+            ps.extend(std::iter::repeat(we::ValType::F32).take((i / 35 % 6) as usize));
+            ps.extend(std::iter::repeat(we::ValType::F64).take((i / 210) as usize % 40));
+            ts.function(ps, []);
+        }
+    }
+    m.section(&ts);
+    let nf: u32 = match kind {
+        10 | 11 => n,
+        _ => 1,
+    };
+    let mut fs = we::FunctionSection::new();
+    for i in 0..nf {
+        fs.function(if kind == 11 { i + 1 } else { 0 });
+    }
+    m.section(&fs);
+    if kind == 17 {
+        let mut t = we::TableSection::new();
+        t.table(we::TableType { element_type: we::RefType::FUNCREF, table64: false, minimum: n as u64, maximum: None, shared: false });
+        m.section(&t);
+    }
+    if kind == 16 {
+        let mut ms = we::MemorySection::new();
+        ms.memory(we::MemoryType { minimum: 1, maximum: None, memory64: false, shared: false, page_size_log2: None });
+        m.section(&ms);
+    }
+    if kind == 13 {
+        let mut g = we::GlobalSection::new();
+        for i in 0..n {
+            g.global(we::GlobalType { val_type: we::ValType::I32, mutable: i % 2 == 0, shared: false }, &we::ConstExpr::i32_const(i as i32));
+        }
+        m.section(&g);
+    }
+    if kind == 14 {
+        let mut e = we::ExportSection::new();
+        for i in 0..n {
+            e.export(&format!("e{}", i), we::ExportKind::Func, 0);
+        }
+        m.section(&e);
+    }
+    if kind == 17 {
+        let mut e = we::ElementSection::new();
+        let items: Vec<u32> = vec![0; n as usize];
+        e.active(None, &we::ConstExpr::i32_const(0), we::Elements::Functions(&items));
+        m.section(&e);
+    }
+    let mut code = Vec::new();
+    wasmsplit::write_leb_u32(nf, &mut code);
+    for _ in 0..nf {
+        let mut body: Vec<u8> = Vec::new();
+        match kind {
+            10 => body.extend_from_slice(&[0x01, 0xd0, 0x86, 0x03, 0x7f]),
+            18 => {
+                let k = n.min(50_000);
+                wasmsplit::write_leb_u32(k, &mut body);
+                for i in 0..k {
+                    body.extend_from_slice(&[0x01, if i % 2 == 0 { 0x7f } else { 0x7e }]);
+                }
+            }
+            _ => body.push(0x00),
+        }
+        match kind {
+            12 => {
+                for _ in 0..n {
+                    body.extend_from_slice(&[0x41, 0x01, 0x1a]);
+                }
+            }
+            15 => {
+                body.extend_from_slice(&[0x02, 0x40, 0x41, 0x00, 0x0e]);
+                wasmsplit::write_leb_u32(n, &mut body);
+                for _ in 0..n {
+                    body.push(0x00);
+                }
+                body.push(0x00);
+                body.push(0x0b);
+            }
+            _ => {}
+        }
+        body.push(0x0b);
+        wasmsplit::write_leb_u32(body.len() as u32, &mut code);
+        code.extend_from_slice(&body);
+    }
+    m.section(&we::RawSection { id: 10, data: &code });
+    if kind == 16 {
+        let mut d = we::DataSection::new();
+        for i in 0..n {
+            d.active(0, &we::ConstExpr::i32_const((i % 60000) as i32), [i as u8]);
+        }
+        m.section(&d);
+    }
+    m.finish()
+}
+
 /// Deeply nested control: `depth` nested block/loop/if inside one function.
 /// kind 0: all blocks; 1: all loops; 2: all ifs (with an i32 condition each);
 /// 3: mixed; 4: blocks with a value result threaded through; 5: unclosed (invalid).
 pub fn nest_bomb(depth: u32, kind: u8) -> Vec<u8> {
     use wasm_encoder as we;
+    if kind >= 10 {
+        return scale_bomb(depth, kind);
+    }
     let mut m = we::Module::new();
     let mut ts = we::TypeSection::new();
     ts.function([], []);
